@@ -19,6 +19,11 @@ fn c12_only_http_https_ws_wss_are_matched() {
             assert_eq!(e.check_network_request(&p).matched, eligible, "preparsed {url} as {t:?}");
         }
     }
+    // later colons (port, query, embedded URL) do not move the scheme
+    for url in ["https://example.com:8080/a.js", "https://example.com/a.js?t=12:30", "https://example.com/r?u=http://other.test/", "wss://example.com:443/s"] {
+        let p = Request::preparsed(url, "example.com", "source.test", "script", true);
+        assert!(e.check_network_request(&p).matched, "preparsed {url}");
+    }
     // URLs without `//` after the scheme: the scheme is still the text before the first ':'
     let e2 = Engine::from_rules(["*$image", "*$script", "*$document", "*$other"], ParseOptions::default());
     for (url, eligible) in [("data:text/plain,hello", false), ("about:blank", false), ("blob:https://example.com/uuid", false), ("javascript:void(0)", false),
